@@ -132,6 +132,7 @@ def main(argv):
         write_evidence(cfg, a, t0, [], {}, 1, stmts, qeds, files, {}, notes + [hlog[-500:]], known_hits)
         return 1
     results, errors = core.coq_eval(cfg, cases, workdir)
+    in_scope = results.pop("scope", None)
     if errors:
         p = write_broken_replay(cfg, "Coq evaluation of the cases failed", "\n".join(errors)[-3000:], a.tier, a.seed)
         print("VIOLATION property=%s replay=%s no-failing-input-found" % (pid, p))
@@ -139,6 +140,8 @@ def main(argv):
         return 1
 
     extra_cov = {}
+    if in_scope is not None:
+        extra_cov["cases_in_property_scope"] = in_scope
     mismatches = []
     seen_sig = set()
 
@@ -180,6 +183,7 @@ def main(argv):
         cases2, hlog2 = core.run_harness(binp, pid, workdir, seed2, n2, "thorough", tag="esc")
         if cases2 is not None:
             res2, err2 = core.coq_eval(cfg, cases2, workdir, tag="esc")
+            res2.pop("scope", None)
             if not err2:
                 before = len(mismatches)
                 classify(cases2, res2, seed2)
